@@ -30,3 +30,4 @@ OBLIGATIONS += [
         bounds_q="3 chains, dictionaries 1..7 MiB, all limits"),
 ]
 OBLIGATIONS += reuse("C07", r"direct_mode_memory")   # threaded decoder: direct mode holds only the filter memory
+OBLIGATIONS += reuse("C03", r"index_decoder_vs_spec|index_buffer_decode")   # Index decoder: memory gate right after the Record count, memconfig, *memlimit update
